@@ -232,7 +232,7 @@ func runPrepare(c *PrepareCase, param interface{}) {
 	if c.InGtx {
 		tm.SetXID(ctx, c.Xid)
 	}
-	c.Outcome, c.Detail = hutil.Guard(20*time.Second, func() error {
+	c.Outcome, c.Detail = hutil.Guard(120*time.Second, func() error {
 		_, err := proxies[c.Action].Prepare(ctx, param)
 		return err
 	})
@@ -313,7 +313,7 @@ func runPhase2(c *Phase2Case) {
 	} else {
 		body = message.BranchRollbackRequest{AbstractBranchEndRequest: end}
 	}
-	c.Outcome, c.Detail = hutil.Guard(20*time.Second, func() error {
+	c.Outcome, c.Detail = hutil.Guard(120*time.Second, func() error {
 		getty.GetGettyClientHandlerInstance().OnMessage(nil, message.RpcMessage{ID: c.MsgID, Type: message.GettyRequestTypeRequestSync, Body: body})
 		return nil
 	})
